@@ -207,3 +207,94 @@ def c15(r):
         (bump(["wf", 3, 4]), "C15.week.next"), (bump(["ws", 2, "r", "idx"]), "C15.week.nextSeparate"),
         (bump(["ws", 9, "b", "first", 2]), "C15.week.nextSeparate.back"),
         (bump(["un", 5, 2]), "C15.month.next"), (bump(["un", 5, 7]), "C15.season.next"), (bump(["un", 5, 17]), "C15.year.next")]})
+
+
+# --------------------------------------------------------------------- C19
+@plan("C19", "model_checking")
+def c19(r):
+    thorough = r.tier == "thorough"
+    r.rule = ("TLC model-checks MC_Forms (cursor over a grid of civil date-times: parse(format(x)) = x in every state, "
+              "lexicographic order = chronological order on every transition between grid points; cursor over lunar dates incl. "
+              "5-digit Taoist years: ParseLunar(RenderLunar(x)) = x, distinct dates print differently). Frames per civil year "
+              "(%s): every day's ToYmd / ToYmdHms / String as code points, the lunar, Taoist and Buddhist renderings as rune "
+              "sequences next to the numbers; TLC checks observed = canonical form, parse-back, order along the year and "
+              "distinctness within the year. Distinct non-trivial case = distinct civil day." %
+              ("every year 1..9999" if thorough else "80 seeded + 21 boundary years"))
+    r.build()
+    r.mc("MC_Forms", "MC_Forms_t" if thorough else "MC_Forms")
+    ch = r.drive("c19years", args={"years": 80}, maxlines=40)
+    r.validate("Trace_Civil", ch)
+    r.sample_from(ch[:1])
+    r.cov["samples"] = [s[:400] + "...(truncated)" for s in r.cov["samples"]]
+    days = 0
+    for c in ch:
+        for line in open(c, encoding="utf-8"):
+            e = json.loads(line)
+            days += len(e["rows"])
+            r.nontrivial.add(("y", e["y"]))
+    r.cov["distinct_nontrivial"] = days
+    r.cov["days_rendered"] = days
+    def setv(path, v):
+        def f(e):
+            cur = e
+            for q in path[:-1]:
+                cur = cur[q]
+            cur[path[-1]] = v
+            return True
+        return f
+    def dup_row(e):
+        if len(e["rows"]) < 40:
+            return False
+        for k in ("ls", "l"):
+            e["rows"][30][k] = e["rows"][29][k]
+        return True
+    r.negctl("Trace_Civil", ch[0], {"C19Year": [
+        (bump(["rows", 3, "ymd", 9]), "C19.civil.ymd"), (bump(["rows", 4, "hms", 18]), "C19.civil.ymdhms"),
+        (setv(["rows", 5, "ls", 0], "零"), "C19.lunar.render"), (bump(["rows", 6, "t", 2]), "C19.tao.render"),
+        (bump(["rows", 7, "f", 0]), "C19.foto.render"), (dup_row, "C19.lunar.distinct")]}, per_kind=1)
+
+
+# --------------------------------------------------------------------- C20
+@plan("C20", "model_checking")
+def c20(r):
+    thorough = r.tier == "thorough"
+    r.rule = ("TLC model-checks MC_Zodiac (day-by-day walk through 34 whole years covering all 14 year types, 1582 and Julian "
+              "century years: the sign advances by one exactly on the 12 conventional first days, is a function of month and day; "
+              "every k-th / last weekday rule and fixed-date rule selects exactly one day per year). Frames per civil year (%s): "
+              "every day's GetXingZuo, GetFestivals, GetOtherFestivals; the library's festival tables are dumped and compared "
+              "with the hand-written rule sets of Vocab.tla. Distinct non-trivial case = distinct civil day." %
+              ("every year 1..9998" if thorough else "100 seeded + 17 boundary years + 2000..2027"))
+    r.build()
+    r.mc("MC_Zodiac", "MC_Zodiac")
+    ch = r.drive("c20years", args={"years": 100}, maxlines=60)
+    r.validate("Trace_Civil", ch)
+    r.sample_from(ch[:1])
+    r.cov["samples"] = [s[:400] + "...(truncated)" for s in r.cov["samples"]]
+    days = 0
+    for c in ch:
+        for line in open(c, encoding="utf-8"):
+            e = json.loads(line)
+            if e["ev"] == "C20Year":
+                days += len(e["rows"])
+    r.cov["distinct_nontrivial"] = days
+    r.cov["days_observed"] = days
+    def setz(e):
+        e["rows"][20]["z"] = "水瓶" if e["rows"][20]["z"] != "水瓶" else "摩羯"
+        e["rows"][20]["z2"] = e["rows"][20]["z"]
+        return True
+    def addf(e):
+        e["rows"][40]["f"] = e["rows"][40]["f"] + ["母亲节"]
+        return True
+    def dropf(e):
+        for row in e["rows"]:
+            if row["f"]:
+                row["f"] = row["f"][1:]
+                return True
+        return False
+    def dropo(e):
+        for row in e["rows"]:
+            if row["o"]:
+                row["o"] = row["o"][:-1]
+                return True
+        return False
+    r.negctl("Trace_Civil", ch[0], {"C20Year": [(setz, "C20.zodiac"), (addf, "C20.festivals"), (dropf, "C20.festivals"), (dropo, "C20.otherFestivals")]}, per_kind=2)
